@@ -80,7 +80,9 @@ bool MPSInput::readLine()
       // Read until we have a non-empty, non-comment line.
       do
       {
-         if(!m_input.getline(m_buf, sizeof(m_buf)).good() && !m_input.eof())
+         // failbit: nothing could be read (end of input, stream error) or the line does not fit into the buffer;
+         // a last line without newline sets eofbit only and is still processed
+         if(m_input.getline(m_buf, sizeof(m_buf)).fail())
             return false;
 
          m_lineno++;
